@@ -6,6 +6,7 @@
 //        PATCH/OPTIONS (methods without a table); with a shutdown time, Endpoint::shutdown() is called while the load runs
 //     -> M ok=<responses carrying their own request's method and number> bad=<responses that do not> short=<requests left
 //            unanswered although the server was not shut down> shutdown=<1 returned> threads_left=<framework threads alive after shutdown>
+//   I <workers>   serveThreaded(); shutdown(); at once -> I shutdown=1 threads_left=<alive 3 s after shutdown, before the destructor> dtor=1
 // Built with -fsanitize=thread: a data race inside the framework ends the case as CRASH.
 #include <pistache/endpoint.h>
 #include <pistache/http.h>
@@ -63,9 +64,39 @@ bool read_one(int fd, std::string& buf, int& code, std::string& body)
 }
 } // namespace
 
+// I <workers>: shutdown() right after serveThreaded() - the worker threads may not have entered their loops yet.  Every
+// framework thread must be gone within 3 s of shutdown() returning, before the endpoint is destroyed (the destructor shuts
+// down once more, which would hide a lost first shutdown), and the destructor must return.
+static std::string immediate_case(int workers)
+{
+    std::thread([] {}).join();
+    int base_threads = count_threads();
+    auto router = std::make_shared<Rest::Router>();
+    Rest::Routes::Get(*router, "/echo/:id", Rest::Routes::bind(&echo));
+    auto ep = std::make_unique<Http::Endpoint>(Address("127.0.0.1", Port(0)));
+    ep->init(Http::Endpoint::options().threads(workers).flags(Flags<Tcp::Options>(Tcp::Options::ReuseAddr)));
+    ep->setHandler(Rest::Router::handler(router));
+    ep->serveThreaded();
+    ep->shutdown();
+    int left = 0;
+    for (int k = 0; k < 600; ++k)
+    {
+        left = count_threads() - base_threads;
+        if (left <= 0)
+            break;
+        std::this_thread::sleep_for(std::chrono::milliseconds(5));
+    }
+    ep.reset(); // a hang here ends the case as HANG
+    std::ostringstream os;
+    os << "I shutdown=1 threads_left=" << (left < 0 ? 0 : left) << " dtor=1";
+    return os.str();
+}
+
 static std::string handle(const std::string& line)
 {
     auto t = pv::split(line);
+    if (t.size() == 2 && t[0] == "I")
+        return immediate_case(atoi(t[1].c_str()));
     if (t.size() < 5)
         return "BADCASE";
     int workers = atoi(t[1].c_str()), clients = atoi(t[2].c_str()), requests = atoi(t[3].c_str()), shut = atoi(t[4].c_str());
